@@ -475,6 +475,23 @@ def gen_consts():
     emit("/-- utils/__init__.py registry: the new instance gets its registry_key before it is stored in the shared dictionary -/\ndef registryCompletesFirst : Bool := " + lbool(0 <= i_key < i_pub))
     ldr = Src("dateparser/languages/loader.py")
     emit("/-- loader.py _construct_locales: a language without the requested region falls back to the plain language (is not dropped) -/\ndef loaderFallsBack : Bool := " + lbool("_filter_valid_locales(" not in ast.unparse(ldr.func("_construct_locales"))))
+    # every Locale the loader builds gets a private deep copy of the language data, and combine_dicts builds a fresh mapping without
+    # touching its arguments (no early `return <argument>`, no in-place `+=` / `.extend` / `.update` on values it was given)
+    ld_fn = ldr.func("LocaleDataLoader._load_data")
+    loc_calls = [n for n in ast.walk(ld_fn) if isinstance(n, ast.Call) and getattr(n.func, "id", "") == "Locale"]
+    copies = bool(loc_calls) and all(any(k.arg == "language_info" and isinstance(k.value, ast.Call) and getattr(k.value.func, "id", "") == "deepcopy" for k in c.keywords) for c in loc_calls)
+    emit("/-- loader.py _load_data: every Locale is built from a deep copy of the language data -/\ndef loaderCopiesLanguageData : Bool := " + lbool(copies))
+    cd = ut.func("combine_dicts")
+    argn = {a.arg for a in cd.args.args}
+    pure = True
+    for n in ast.walk(cd):
+        if isinstance(n, ast.Return) and isinstance(n.value, ast.Name) and n.value.id in argn:
+            pure = False
+        if isinstance(n, ast.AugAssign):
+            pure = False
+        if isinstance(n, ast.Call) and isinstance(n.func, ast.Attribute) and n.func.attr in ("extend", "update", "append", "insert") and not ast.unparse(n.func.value).startswith("combined"):
+            pure = False
+    emit("/-- utils combine_dicts: returns a fresh mapping and modifies neither argument -/\ndef combineDictsFresh : Bool := " + lbool(pure))
     lc = Src("dateparser/languages/locale.py")
     RX("reNumeralPattern", regex_of(lc.assign("NUMERAL_PATTERN")), "locale.py NUMERAL_PATTERN")
     ok_lazy, n_lazy = lazy_fact(lc.text)
